@@ -1373,6 +1373,17 @@ fn gen_c04(o: &mut Out, r: &mut Rng, d: &GDict, tier: &str) {
     let thorough = tier == "thorough";
     // the environment of the process (terminal width, locale) must not make decoding or displaying fail
     for (name, value) in [("COLUMNS", "63"), ("COLUMNS", "64"), ("COLUMNS", "67"), ("COLUMNS", "71"), ("COLUMNS", "40"), ("COLUMNS", "3"), ("COLUMNS", "0"), ("COLUMNS", "wide"), ("LANG", "C"), ("LANG", "en_US"), ("LC_ALL", "POSIX"), ("LC_CTYPE", "de_DE@euro"), ("NO_COLOR", "1"), ("TERM", "dumb"), ("TZ", "America/New_York"), ("RUST_LOG", "trace")] {
+        // ... and in a fresh process, where the variable is there before the library does anything at all (what is read from
+        // the environment once, at first use, is read then): a Credit-Control request under the built-in dictionary
+        {
+            let m = GM { version: 1, flags: 0x80, cmd: 272, app: 4, hbh: 1, e2e: 2, avps: vec![
+                GA { code: 263, vendor: None, flags: 0x40, v: GV::Utf8("sess;é;世;𝄞".into()) },
+                GA { code: 264, vendor: None, flags: 0x40, v: GV::Ident("host.example.org".into()) },
+                GA { code: 268, vendor: None, flags: 0x40, v: GV::U32(2001) },
+            ] };
+            o.case(&format!("environment (fresh process) {}={}", name, value));
+            o.line(&format!("envchild {} {} {}", name, value, hex(&m.encode(&mut None))));
+        }
         o.case(&format!("environment {}={}", name, value));
         // (of the locale variables the first that is set counts: the others are taken away for good)
         if name == "LANG" || name == "LC_ALL" || name == "LC_CTYPE" {
@@ -2878,7 +2889,7 @@ fn gen_reuse(o: &mut Out, r: &mut Rng, d: &GDict, tier: &str, uid: &mut u32) {
         }
         rd.push(if k % 3 == 0 { "e".into() } else { "s".to_string() });
         o.case(&format!("client reuse n={} expect=all silent={}", n, (k % 3 != 0) as u8));
-        o.line(&format!("cli {} {} - {} -", sends.join(","), rd.join(","), ans.join(",")));
+        o.line(&format!("cli {} {} - {} {}", sends.join(","), rd.join(","), ans.join(","), if k % 4 == 2 { "D" } else { "-" }));
     }
 }
 
